@@ -124,7 +124,9 @@ var c09Share = core.Mon(c09, "concurrent-share", func(w *core.W, c *RaceCfg) {
 		if err != nil {
 			continue
 		}
-		sh := &shared{src: s, sc: sc, fields: fieldsOf(sc)}
+		// nothing is evaluated or analysed before the goroutines start: the first use of every tree (and of every
+		// lazily built table behind it) happens concurrently; the sequential oracle is computed afterwards
+		sh := &shared{src: s, sc: sc}
 		for _, l := range ref.Lexemes([]byte(s)) {
 			if l == "now" || l == "toDay" {
 				sh.clock = true
@@ -141,9 +143,6 @@ var c09Share = core.Mon(c09, "concurrent-share", func(w *core.W, c *RaceCfg) {
 		m["s0"] = fmt.Sprintf("g%d-abab", g)
 		datas[g] = m
 		expect[g] = make([]string, len(trees))
-		for i, t := range trees {
-			expect[g][i] = evalOutcome(t.sc, m)
-		}
 	}
 	// hook: yields only (its single piece of state is one atomic counter)
 	var ctr, yields uint64
@@ -172,6 +171,12 @@ var c09Share = core.Mon(c09, "concurrent-share", func(w *core.W, c *RaceCfg) {
 		}
 		mu.Unlock()
 	}
+	type obsv struct {
+		tree int
+		out  string
+	}
+	seen := make([][]obsv, c.G)       // per goroutine: what it observed (written by that goroutine only)
+	seenFields := make([][]obsv, c.G) // likewise for the field analysis
 	var wg sync.WaitGroup
 	start := make(chan struct{})
 	for g := 0; g < c.G; g++ {
@@ -193,15 +198,13 @@ var c09Share = core.Mon(c09, "concurrent-share", func(w *core.W, c *RaceCfg) {
 				got := evalOutcome(t.sc, datas[g])
 				atomic.AddInt32(&t.inflight, -1)
 				atomic.AddInt64(&evals, 1)
-				if !t.clock && got != expect[g][i] {
-					report(mismatch{g, i, "evaluation", expect[g][i], got})
+				if !t.clock {
+					seen[g] = append(seen[g], obsv{i, got})
 				}
 				switch it % 5 {
 				case 1:
 					atomic.AddInt64(&analyses, 1)
-					if f := fieldsOf(t.sc); f != t.fields {
-						report(mismatch{g, i, "field analysis", t.fields, f})
-					}
+					seenFields[g] = append(seenFields[g], obsv{i, fieldsOf(t.sc)})
 					var nl []string
 					core.Call(func() { nl, _ = formula.ResolveReferenceFieldsNotLocal(t.sc) })
 					sort.Strings(nl)
@@ -238,6 +241,25 @@ var c09Share = core.Mon(c09, "concurrent-share", func(w *core.W, c *RaceCfg) {
 	close(start)
 	wg.Wait()
 	obs.SetHook(nil)
+	// the sequential oracle, computed now
+	for _, t := range trees {
+		t.fields = fieldsOf(t.sc)
+	}
+	for g := 0; g < c.G; g++ {
+		for _, o := range seen[g] {
+			if expect[g][o.tree] == "" {
+				expect[g][o.tree] = evalOutcome(trees[o.tree].sc, datas[g])
+			}
+			if o.out != expect[g][o.tree] {
+				report(mismatch{g, o.tree, "evaluation", expect[g][o.tree], o.out})
+			}
+		}
+		for _, o := range seenFields[g] {
+			if o.out != trees[o.tree].fields {
+				report(mismatch{g, o.tree, "field analysis", trees[o.tree].fields, o.out})
+			}
+		}
+	}
 	w.Eval(int(evals))
 	w.CountN("goroutine_evaluations", evals)
 	w.CountN("overlapping_evaluations_observed", overlaps)
